@@ -20,7 +20,8 @@ def ic_setup(ctx):
         state = ["spec", "None", "missing"][ctx.choose(3, f"{dest}-value")]
         value_state[dest] = state
         inst = Rec("instance", attrs={"of": dest})
-        a = Rec("ActionTypeHint", attrs={"dest": dest, "instance": inst}, methods={"instantiate_classes": lambda c, s_, a_, k, _d=dest, _i=inst: (c.event("instantiate", _d, a_[0]), _i)[1]})
+        # the first class argument is typed Base, the second List[Base] (a link target may sit in either: links are accepted for both)
+        a = Rec("ActionTypeHint", attrs={"dest": dest, "instance": inst, "hint": ["Base", "List[Base]"][i]}, methods={"instantiate_classes": lambda c, s_, a_, k, _d=dest, _i=inst: (c.event("instantiate", _d, a_[0]), _i)[1]})
         actions.append(a)
     other = Rec("_StoreAction", attrs={"dest": "lr"})
     group = Rec("ArgumentGroup", attrs={"dest": "optim", "instantiate_class": Rec("fn", methods={"__call__": lambda c, s_, a_, k: c.event("instantiate-group", a_[0].attrs["dest"], a_[1])})})
@@ -67,6 +68,8 @@ def ic_setup(ctx):
         "strip_meta": lambda c, a_, k: (c.event("strip_meta", a_[0]), copy)[1],
         "ActionLink.apply_instantiation_links": lambda c, a_, k: c.event("apply-links", a_[1], k.get("target"), k.get("order")),
         "ActionLink.get_nested_links": lambda c, a_, k: [],
+        # contract of is_subclass_typehint (used by link creation with all_subtypes=False, also_lists=True): with the default flags a List[Base] is *not* a subclass type hint
+        "ActionTypeHint.is_subclass_typehint": lambda c, a_, k: isinstance(a_[0], Rec) and (a_[0].attrs.get("hint") == "Base" or (a_[0].attrs.get("hint") == "List[Base]" and k.get("also_lists") is True)),
         "_ActionSubCommands.get_subcommand": lambda c, a_, k: ("fit", subparser) if sub else (None, None),
     }
     consts = {"ActionTypeHint": ClassRef("ActionTypeHint"), "_ActionConfigLoad": ClassRef("_ActionConfigLoad")}
